@@ -176,10 +176,11 @@ def cmpElems : List (Ptr × Ptr) → List (Ptr × Ptr) → Ordering
   | (p, s) :: r, (p', s') :: r' => (Ptr.cmp p p').then ((Ptr.cmp s s').then (cmpElems r r'))
 end
 
-/-- stable insertion (after every element that is `≤`), key = prime -/
+/-- insertion in front of the first element whose prime is `≥` (so that an element keeps its
+place before later elements with an equal key: `sortByPrime` is stable), key = prime -/
 def insertByPrime (x : Elem) : List Elem → List Elem
   | [] => [x]
-  | y :: ys => if Ptr.cmp x.1 y.1 = .lt then x :: y :: ys else y :: insertByPrime x ys
+  | y :: ys => if Ptr.cmp x.1 y.1 = .gt then y :: insertByPrime x ys else x :: y :: ys
 
 /-- `node.sort_by_key(|a| a.prime())` (stable) -/
 def sortByPrime : List Elem → List Elem
@@ -604,6 +605,25 @@ def andCartesian (vt : VTree) (cmpr : Bool) (andF : AndF σ) (st : σ) (a b : Pt
 
 end builder
 
+/-- the part of `and` after the base cases and the operand normalisation: apply-cache lookup
+(key = the normalised pair, as the Rust `SddAnd::new(a, b)`), the four vtree cases, cache insert -/
+def andCore (A : CacheImpl (Ptr × Ptr)) (vt : VTree) (cmpr : Bool) (andF : AndF A.σ)
+    (st : A.σ) (a b : Ptr) : Option (A.σ × Ptr) :=
+  match A.get st (a, b) with
+  | some x => some (st, x)
+  | none =>
+    let av := vtreeIndex vt a
+    let bv := vtreeIndex vt b
+    let lca := vt.lca 0 av bv
+    let r :=
+      if av = bv then andCartesian vt cmpr andF st a b lca
+      else if lca = av then andSubDesc cmpr andF st a b
+      else if lca = bv then andPrimeDesc cmpr andF st b a
+      else (andIndep vt a b lca).map fun r => (st, r)
+    match r with
+    | none => none
+    | some (st', r) => some (A.insert st' (a, b) r, r)
+
 /-- the body of `and`, with the recursive call abstracted -/
 def andBody (A : CacheImpl (Ptr × Ptr)) (vt : VTree) (cmpr : Bool) (andF : AndF A.σ)
     (st : A.σ) (a b : Ptr) : Option (A.σ × Ptr) :=
@@ -613,24 +633,9 @@ def andBody (A : CacheImpl (Ptr × Ptr)) (vt : VTree) (cmpr : Bool) (andF : AndF
   else if b.isFalse then some (st, .fls)
   else if a = b then some (st, a)
   else if a = b.neg then some (st, .fls)
-  else
-    let ab : Ptr × Ptr :=
-      if vtreeIndex vt a = vtreeIndex vt b ∨ vtreeIndex vt a < vtreeIndex vt b then (a, b)
-      else (b, a)
-    match A.get st ab with
-    | some x => some (st, x)
-    | none =>
-      let av := vtreeIndex vt ab.1
-      let bv := vtreeIndex vt ab.2
-      let lca := vt.lca 0 av bv
-      let r :=
-        if av = bv then andCartesian vt cmpr andF st ab.1 ab.2 lca
-        else if lca = av then andSubDesc cmpr andF st ab.1 ab.2
-        else if lca = bv then andPrimeDesc cmpr andF st ab.2 ab.1
-        else (andIndep vt ab.1 ab.2 lca).map fun r => (st, r)
-      match r with
-      | none => none
-      | some (st', r) => some (A.insert st' ab r, r)
+  else if vtreeIndex vt a = vtreeIndex vt b ∨ vtreeIndex vt a < vtreeIndex vt b then
+    andCore A vt cmpr andF st a b
+  else andCore A vt cmpr andF st b a
 
 /-- `BottomUpBuilder::and` for SDDs -/
 def and (A : CacheImpl (Ptr × Ptr)) (vt : VTree) (cmpr : Bool) : Nat → AndF A.σ
